@@ -181,6 +181,20 @@ func Generate(family string, seed int64, idx int) Scenario {
 		genFig8x(r, &sc)
 	case "storefail":
 		genStoreFail(r, &sc)
+	case "cfgtrunc":
+		p := &sc.P
+		p.Voters, p.NonVoters, p.Spares = pick(r, 3, 3, 5), pick(r, 1, 1, 0), 0
+		p.PreVoteOff = make([]bool, p.N())
+		if r.Intn(2) == 0 {
+			for i := range p.PreVoteOff {
+				p.PreVoteOff[i] = true
+			}
+		}
+		p.ShutdownOnRemove = false
+		p.RestoreCommitted = false
+		p.SnapThreshold = 8192
+		sc.Clients = 0
+		sc.Script = "cfgtrunc"
 	case "lease":
 		genLease(r, &sc)
 	case "quiet":
